@@ -198,6 +198,8 @@ def facts : Facts := {
   envParseBase0 := true
   envEmptyIsDefault := true
   envTooSmallIsLeMin := true
+  encodeCapsAtLen := true
+  encodeChecksLen := true
   recursionDecrements := true
   recursiveCalls := 5
   depthZeroTests := 2
